@@ -652,8 +652,60 @@ def gen_hyph():
     scenario("hyph-04", "hyph", doc(css, body), expect=dict(page_w=200, page_h=150, margin=True, group="hyph"))
 
 
+# ------------------------------------------------------------------ family feat-* (reach for rarely visited map-order sites)
+
+def gen_feat():
+    # quotes per language, font-variant / font-feature-settings, counters with several scopes
+    css = page_css(260, 160, 10) + BASE + ('q { quotes: auto }\n.v { font-variant: small-caps oldstyle-nums slashed-zero; font-feature-settings: "liga" 0, "kern" 1, "smcp" 1; font-variant-ligatures: no-common-ligatures discretionary-ligatures }\n'
+                                            'ol { counter-reset: a 1 b 2 c 3; margin: 0; padding-left: 20px } li { counter-increment: a 2 b c; list-style: none } li::before { content: counter(a) "." counter(b) "." counters(c, "-") " " }\n')
+    W = words("w", 30)
+    body = ('<p lang="fr"><q>%s <q>%s</q></q></p><p lang="de"><q>%s <q>%s</q></q></p><p lang="en-us" class=v>%s</p><ol>%s</ol>' %
+            (W[0], W[1], W[2], W[3], " ".join(W[4:14]), "".join("<li>%s<ol><li>%s</li></ol></li>" % (W[14 + 2 * i], W[15 + 2 * i]) for i in range(8))))
+    scenario("feat-01", "feat", doc(css, body), expect=dict(margin=True, page_w=260, page_h=160, sentinels=W, line_height=12))
+
+    # string-set with several strings, bookmark-label with content(), target-counter / target-text to several anchors across pages
+    css = page_css(240, 150, 10) + BASE + ('h2 { string-set: sa content(), sb content(before) "x", sc counter(page); bookmark-level: 2; bookmark-label: "B " content(text) }\nh2::before { content: "s" }\n'
+                                            '@page { @top-left { content: string(sa) string(sb, first) ; font-family: ahem; font-size: 8px } @top-right { content: string(sc, last); font-family: ahem; font-size: 8px } }\n'
+                                            'a.c::after { content: " tc" target-counter(attr(href), page) }\na.t::after { content: " tt" target-text(attr(href), content()) }\na.s::after { content: " ts" target-counters(attr(href), sec, ".") }\n'
+                                            'h2 { counter-increment: sec }\n')
+    body, flow, ids, links, bms = [], [], {}, [], []
+    wi = 1
+    for i in range(6):
+        hw = "c%03d" % (i + 1)
+        body.append('<h2 id="h%d">%s</h2>' % (i, hw)); ids["h%d" % i] = hw
+        bms.append(dict(level=2, label="B " + hw, word=hw))
+        ws = words("w", 16, wi); wi += 16; flow += ws
+        inner = list(ws)
+        t1, t2, t3 = "h%d" % ((i + 2) % 6), "h%d" % ((i + 3) % 6), "h%d" % ((i + 5) % 6)
+        inner[2] = '<a class=c href="#%s">%s</a>' % (t1, ws[2]); links.append(dict(word=ws[2], target=t1))
+        inner[7] = '<a class=t href="#%s">%s</a>' % (t2, ws[7]); links.append(dict(word=ws[7], target=t2))
+        inner[11] = '<a class=s href="#%s">%s</a>' % (t3, ws[11]); links.append(dict(word=ws[11], target=t3))
+        body.append("<p>%s</p>" % " ".join(inner))
+    scenario("feat-02", "feat", doc(css, "\n".join(body), "<title>Targets</title>"),
+             expect=dict(margin=True, page_w=240, page_h=150, ids=ids, links=links, bookmarks=bms, meta={"Title": "Targets"}, sentinels=flow, line_height=12))
+
+    # grid with named lines / areas / auto-flow column, implicit tracks on both sides
+    css = page_css(300, 200, 10) + BASE + ('.g { display: grid; grid-template-columns: [a] 60px [b] 1fr [c] 80px [d]; grid-template-areas: "x x y" "z w y"; gap: 4px; grid-auto-flow: column; grid-auto-columns: 40px; grid-auto-rows: 20px }\n'
+                                            '.x { grid-area: x } .y { grid-area: y } .z { grid-area: z } .w { grid-column: b / c; grid-row: 2 } .n { grid-column: a / c } .m { grid-row: 3 / span 2; grid-column: c }\n')
+    flows, items = {}, []
+    for i, cls in enumerate(["x", "y", "z", "w", "n", "m", "", "", ""]):
+        ws = words("abcdefghi"[i], 3 + i % 3)
+        flows["item%d" % i] = ws
+        items.append('<div class="%s">%s</div>' % (cls, " ".join(ws)))
+    scenario("feat-03", "feat", doc(css, '<div class=g>%s</div>' % "".join(items)), expect=dict(flows=flows, margin=True, page_w=300, page_h=200, conserve=True, line_height=12))
+
+    # many custom properties / var() / inherit chains / !important mixes (cascade maps), anonymous boxes, ::first-letter/::first-line
+    css = page_css(260, 160, 10) + BASE + (':root { --a: 3px; --b: var(--a); --c: calc(var(--b) * 2); --col: #123456 }\n.k { margin-left: var(--b); padding-left: var(--c); color: var(--col); border-left: var(--a) solid var(--col) }\n'
+                                            '.k { --a: 5px; margin-left: 1px !important } p::first-line { color: red }\n'
+                                            'span.i { display: inline-block; width: 50px } span.b { display: block }\n')
+    W = words("w", 40)
+    body = "".join('<p class=k style="--d: %dpx; text-indent: var(--d)">%s <span class=i>%s</span> <span class=b>%s</span> %s</p>' % (i, " ".join(W[i * 10:i * 10 + 4]), W[i * 10 + 4], W[i * 10 + 5], " ".join(W[i * 10 + 6:i * 10 + 10])) for i in range(4))
+    scenario("feat-04", "feat", doc(css, body), expect=dict(flows={"main": W}, margin=True, page_w=260, page_h=160, conserve=True, line_height=12))
+
+
 def main():
     gen_pag()
+    gen_feat()
     gen_oof()
     gen_layouts()
     gen_links()
